@@ -84,6 +84,89 @@ def C02(tier):
     return out
 
 
+def C16(tier):
+    """Every memoizer returns what the function returns, for a small alphabet of call signatures,
+    including stampede's early recomputation (forced by a controlled clock / random source)."""
+    import threading
+    import diskcache
+    from diskcache import recipes
+    sigs = []
+    vals = [1, 1.0, None, 'a', True]
+    for n in range(0, 3):
+        for pos in itertools.product(vals[:4], repeat=n):
+            for kw in ({}, {'a': None}, {'a': 1, 'b': 'a'}, {'b': 2}):
+                sigs.append((pos, kw))
+    if tier == 'quick':
+        sigs = sigs[::3]
+    bad = None
+    cases = 0
+
+    def f(*args, **kwargs):
+        return ('R', tuple((type(a).__name__, a) for a in args),
+                tuple(sorted((k, type(v).__name__, v) for k, v in kwargs.items())))
+    d = tempfile.mkdtemp()
+    try:
+        makers = []
+        c1 = diskcache.Cache(d + '/c')
+        makers.append(('Cache.memoize', c1.memoize(typed=True)(f)))
+        fc = diskcache.FanoutCache(d + '/f', shards=2)
+        makers.append(('FanoutCache.memoize', fc.memoize(typed=True)(f)))
+        ix = diskcache.Index(d + '/i')
+        makers.append(('Index.memoize', ix.memoize(typed=True)(f)))
+        for name, w in makers:
+            for pos, kw in sigs:
+                for rnd in (1, 2):
+                    cases += 1
+                    got = w(*pos, **kw)
+                    if got != f(*pos, **kw) and bad is None:
+                        bad = (name, pos, kw, got)
+        # stampede with forced early recomputation
+        clock = [1000.0]
+        real_time, real_random = recipes.time.time, recipes.random.random
+        started = []
+        RealThread = threading.Thread
+
+        class T(RealThread):
+            def start(self):
+                started.append(self)
+                RealThread.start(self)
+        try:
+            recipes.time.time = lambda: clock[0]
+            recipes.random.random = lambda: 1e-300
+            recipes.threading.Thread = T
+            c2 = diskcache.Cache(d + '/s')
+            calls = []
+
+            def g(*args, **kwargs):
+                calls.append((args, kwargs))
+                clock[0] += 1.0
+                return f(*args, **kwargs)
+            w = recipes.memoize_stampede(c2, expire=100, typed=True)(g)
+            for pos, kw in sigs[:40]:
+                for rnd in (1, 2, 3):
+                    cases += 1
+                    got = w(*pos, **kw)
+                    for t in started:
+                        t.join()
+                    del started[:]
+                    if got != f(*pos, **kw) and bad is None:
+                        bad = ('memoize_stampede round %d' % rnd, pos, kw, got)
+                    key = w.__cache_key__(*pos, **kw)
+                    stored = c2.get(key)
+                    if stored is not None and stored[0] != f(*pos, **kw) and bad is None:
+                        bad = ('memoize_stampede stored entry after round %d' % rnd, pos, kw, stored)
+            for a, k in calls:
+                pass
+        finally:
+            recipes.time.time, recipes.random.random = real_time, real_random
+            recipes.threading.Thread = RealThread
+    finally:
+        shutil.rmtree(d, ignore_errors=True)
+    return [result('C16.standin.memoizers_return_function_result', bad is None,
+                   '%d call signatures (arity <= 2 over 4 values x 4 keyword sets) x 2-3 rounds x 4 memoizers, typed' % len(sigs),
+                   cases, None if bad is None else '%s: f(*%r, **%r) gave %r' % bad)]
+
+
 def main():
     pid, tier = sys.argv[1], (sys.argv[2] if len(sys.argv) > 2 else 'quick')
     f = globals().get(pid)
